@@ -1391,3 +1391,58 @@ Proof.
     + intros ->. unfold s1. cbn -[Nat.eqb]. unfold updN, th. rewrite Nat.eqb_refl. cbn. apply (x_main _ Xt).
     + rewrite Et'. change (evs t ([EStart] ++ tail')) with ((t, EStart) :: evs t tail'). cbn [fold_left]. exact Rf.
 Qed.
+
+Definition m12_0 : m12 := mkM12 mb0 [] [] [] false.
+
+Lemma D_init : forall scr, DRel DNone (winit scr) m12_0.
+Proof.
+  intro scr.
+  assert (E : forall x, slab_get (mkSlab (fun _ => SVac 0) 0 0) x = None).
+  { intro x. unfold slab_get. cbn. destruct ((0 <=? x) && (x <? 0)); reflexivity. }
+  constructor; cbn; intros; try discriminate; try contradiction; try reflexivity; try lia;
+    match goal with H : slab_get _ _ = Some _ |- _ => rewrite E in H; discriminate H end.
+Qed.
+
+Theorem wrun_D : forall sched st m,
+  AllInv st -> BRel st (m12_b m) -> DRel DNone st m ->
+  AllInv (fst (wrun st sched)) /\
+  BRel (fst (wrun st sched)) (m12_b (fold_left m12_step (flatten (snd (wrun st sched))) m)) /\
+  DRel DNone (fst (wrun st sched)) (fold_left m12_step (flatten (snd (wrun st sched))) m).
+Proof.
+  induction sched as [|t rest IH]; intros st m A B R; [cbn; auto|].
+  cbn [wrun] in *.
+  destruct (wstep st t) as [st1 ev] eqn:E.
+  destruct (wrun st1 rest) as [st2 tr] eqn:Er. cbn [fst snd] in *.
+  rewrite flatten_cons, fold_left_app in *.
+  pose proof (wstep_D st m t st1 ev A B R E) as R1.
+  pose proof (wstep_All st t st1 ev A E) as A1.
+  assert (B1 : BRel st1 (m12_b (fold_left m12_step (evs t ev) m))).
+  { rewrite m12_b_fold. destruct A as [M _ _ _ _ _ X Y _ _]. exact (wstep_B st _ t st1 ev M X Y B E). }
+  specialize (IH st1 _ A1 B1 R1). rewrite Er in IH. cbn [fst snd] in IH. exact IH.
+Qed.
+
+(** C12, trace form: on every run of the model the waker-drop monitor holds: a handler of a plain waker is
+    never called after its [deleted = true] call, the [deleted = true] call only happens for a waker whose drop
+    has begun, and at quiescence every completed drop has had its [deleted = true] call. *)
+Theorem C12_monitor : forall scr sched, C12_ok (flatten (wtrace scr sched)) false = true.
+Proof.
+  intros scr sched. unfold wtrace.
+  destruct (wrun_D sched (winit scr) m12_0 (All_init scr) (mb0_rel scr) (D_init scr)) as [A [B R]].
+  set (st := fst (wrun (winit scr) sched)) in *.
+  set (m := fold_left m12_step (flatten (snd (wrun (winit scr) sched))) m12_0) in *.
+  unfold C12_ok. fold m12_0. fold m. cbn zeta.
+  rewrite (d_bad _ st m R). cbn [negb andb].
+  destruct (mb_quiescent (m12_b m)) eqn:Eq; [|reflexivity]. cbn [negb andb].
+  assert (Rs : reachable st) by (exists scr, sched; reflexivity).
+  destruct A as [[I [P Wf]] _ _ _ _ _ X _ _ _].
+  pose proof (mbq_quiescent st _ B X P Eq) as Q.
+  pose proof (drops_not_stranded st Rs Q) as Dl.
+  destruct Q as [_ [Qm _]]. unfold mcont in Qm.
+  apply forallb_forall. intros w Hin.
+  assert (Hm : memZ w (m12_done m) = true).
+  { unfold memZ. apply existsb_exists. exists w. split; [exact Hin|apply Z.eqb_refl]. }
+  destruct (d_done _ st m R w Hm) as [D|[[x [D _]]|D]]; [exact D| |].
+  - unfold pipeline in D. rewrite Dl, Qm in D. destruct D.
+  - rewrite Qm in D. destruct D.
+Qed.
+Print Assumptions C12_monitor.
